@@ -16,6 +16,98 @@ DEFER = ("create_task", "ensure_future", "run_in_executor", "call_soon", "call_l
 CLOSERS = ("close", "abort")
 
 
+def late_bound_handlers(prog: Program) -> List[str]:
+    """Structural: a lambda / nested def created inside a loop of the bridge module and handed to the event loop
+    as the datagram handler (it sits in the argument list of the UdpClientProtocol constructor) reads a
+    variable the loop re-assigns.  Python closures hold the variable, not its value: the event loop calls the
+    handler after the loop has moved on, so every handler sees the value of the last iteration."""
+    out: List[str] = []
+    bm = prog.module("aioswitcher.bridge")
+    for fi in bm.all_functions():
+        for loop in ast.walk(fi.node):
+            if not isinstance(loop, (ast.For, ast.AsyncFor, ast.While)):
+                continue
+            loopvars: Set[str] = set()
+            for n in ast.walk(loop):
+                if isinstance(n, ast.Name) and isinstance(n.ctx, ast.Store):
+                    loopvars.add(n.id)
+            for call in ast.walk(loop):
+                # (the protocol *factory* given to an awaited create_datagram_endpoint is called before the loop moves on;
+                #  the datagram *handler* given to the protocol is called whenever a datagram arrives)
+                if not (isinstance(call, ast.Call) and ast.unparse(call.func).split(".")[-1] == "UdpClientProtocol"):
+                    continue
+                for arg in list(call.args) + [k.value for k in call.keywords]:
+                    for lam in ast.walk(arg):
+                        if not isinstance(lam, ast.Lambda):
+                            continue
+                        own = {a.arg for a in lam.args.args + lam.args.kwonlyargs + lam.args.posonlyargs} | ({lam.args.vararg.arg} if lam.args.vararg else set()) | ({lam.args.kwarg.arg} if lam.args.kwarg else set())
+                        inner_own = {a.arg for l2 in ast.walk(lam.body) if isinstance(l2, ast.Lambda) for a in l2.args.args}
+                        free = {n.id for n in ast.walk(lam.body) if isinstance(n, ast.Name) and isinstance(n.ctx, ast.Load)} - own - inner_own
+                        late = sorted(free & loopvars)
+                        # a lambda that only builds a fresh protocol from names the loop does not touch is fine
+                        if late:
+                            out.append(f"{fi.qualname}:{lam.lineno} `{ast.unparse(lam)[:70]}` reads {late}, re-assigned by the loop at line {loop.lineno}")
+    return sorted(set(out))
+
+
+def module_state_on_receive_path(prog: Program) -> List[str]:
+    """Structural (no interpretation needed): functions reachable by name from the datagram builder and the protocol's
+    methods - through calls to functions of the bridge module and of the modules it imports from the package - that
+    declare a global, or store into / delete from / call a mutator on a module-level name of their module."""
+    from .c03 import MUTATORS
+    start = [prog.func("aioswitcher.bridge:_parse_device_from_datagram")] + list(prog.cls("aioswitcher.bridge:UdpClientProtocol").methods.values())
+    seen: Dict[str, Any] = {}
+    work = list(start)
+    while work and len(seen) < 200:
+        f = work.pop()
+        if f.key in seen:
+            continue
+        seen[f.key] = f
+        for n in ast.walk(f.node):
+            if isinstance(n, ast.Call):
+                try:
+                    r = prog.resolve_expr(f.module, n.func)
+                except Exception:  # noqa: BLE001
+                    r = None
+                if r and r[0] == "func":
+                    work.append(r[1])
+                elif r and r[0] == "class":
+                    work.extend(m_ for nm_, m_ in r[1].methods.items() if nm_ in ("__init__", "__post_init__", "__new__"))
+                elif isinstance(n.func, ast.Attribute):
+                    # a method call on something: every method of that name in the bridge module's classes
+                    for ci_ in f.module.classes.values():
+                        if n.func.attr in ci_.methods:
+                            work.append(ci_.methods[n.func.attr])
+    out: List[str] = []
+    for f in seen.values():
+        mod_names = set(f.module.constants)
+        local = set(f.params)
+        for n in ast.walk(f.node):
+            if isinstance(n, (ast.Assign, ast.AnnAssign, ast.For, ast.NamedExpr, ast.With)):
+                for t in (n.targets if isinstance(n, ast.Assign) else [getattr(n, "target", None)]):
+                    for sub in (ast.walk(t) if t is not None else []):
+                        if isinstance(sub, ast.Name) and isinstance(sub.ctx, ast.Store):
+                            local.add(sub.id)
+        for n in ast.walk(f.node):
+            if isinstance(n, ast.Global):
+                out.append(f"{f.qualname}:{n.lineno} declares `{ast.unparse(n)}`")
+                local -= set(n.names)
+        for n in ast.walk(f.node):
+            root = None
+            what = ""
+            if isinstance(n, ast.Call) and isinstance(n.func, ast.Attribute) and n.func.attr in MUTATORS:
+                root, what = n.func.value, "mutates"
+            elif isinstance(n, (ast.Assign, ast.AugAssign, ast.Delete)):
+                for t in (n.targets if isinstance(n, (ast.Assign, ast.Delete)) else [n.target]):
+                    if isinstance(t, ast.Subscript):
+                        root, what = t.value, "stores into"
+            while isinstance(root, (ast.Attribute, ast.Subscript)):
+                root = root.value
+            if isinstance(root, ast.Name) and root.id in mod_names and root.id not in local:
+                out.append(f"{f.qualname}:{n.lineno} {what} the module-level {root.id}: `{ast.unparse(n)[:60]}`")
+    return sorted(set(out))
+
+
 def receive_path_state(prog: Program, pouts: List[Outcome]) -> List[str]:
     """What survives a call of the datagram builder: stores on objects that outlive the call, `global`
     declarations, and mutating calls on module-level containers (AST sweep of the builder, the protocol and the
@@ -63,6 +155,13 @@ def run(prog: Program, rep: Report, tier: str) -> None:
                      "inside a loop, the call is enclosed - inside that loop - by a try whose handler catches Exception; otherwise one corrupted datagram or raising callback ends the task and every later delivery, on all ports, is lost", 0, structural=True)
     rep.rule("R7.7", "a restarted bridge listens again: start() on an instance that has been started and stopped before (stop keeps the closed transports registered) creates an endpoint for every port, "
                      "so broadcasts are delivered after a restart as well (shares its analysis with C17 R17.7)", 1)
+    rep.rule("R7.8", "structural: no function reachable from the datagram builder or the protocol's methods declares a global or mutates / stores into a module-level name (memory between datagrams, whatever the analysis of the values can follow)", 1, structural=True)
+    ms_ = module_state_on_receive_path(prog)
+    rep.check(not ms_, "R7.8", "no module-level state on the receive path", "src/aioswitcher/bridge.py", f"{ms_[:3]}: what is delivered for a datagram depends on the datagrams seen before it", key="R7.8|module-state")
+    rep.rule("R7.9", "structural: no handler / protocol factory handed to the event loop inside a loop is a closure over a variable that loop re-assigns (late binding: every port's handler would see the last port's value)", 1, structural=True)
+    lb_ = late_bound_handlers(prog)
+    rep.check(not lb_, "R7.9", "handlers do not close over loop variables", "src/aioswitcher/bridge.py", f"{lb_[:2]}: the handler runs after the loop has finished, so on every port it works with the value of the last iteration - "
+              f"broadcasts are judged (and here dropped) by a port they did not arrive on", key="R7.9|late-binding")
     rep.rule("R7.4", "one protocol object and one transport per port, each bound to partial(_parse_device_from_datagram, <the user's callback>)", 1)
     rep.explanation = (
         "Decides four structural necessary conditions (one synchronous hand-off per datagram; no state carried between datagrams; nothing on the receive path closes a transport; "
